@@ -424,11 +424,13 @@ func init() {
 				okBit := false
 				forEachInstr(fn, func(in ssa.Instruction) {
 					b, ok := in.(*ssa.BinOp)
-					if !ok || b.Op != token.SHL || !IsConstInt(1)(b.X) {
+					if !ok {
 						return
 					}
-					// shift amount is tsn % 64 (possibly computed by a position helper)
-					if BinV(token.REM, AnyV, IsConstInt(64))(b.Y) {
+					// 1 << (tsn % 64)  — or, for a test, (word >> (tsn % 64)) & 1; the shift amount may come from a position helper
+					isMask := b.Op == token.SHL && IsConstInt(1)(b.X)
+					isProbe := b.Op == token.SHR && fname == "receivePayloadQueue.hasChunk"
+					if (isMask || isProbe) && BinV(token.REM, AnyV, IsConstInt(64))(b.Y) {
 						okBit = true
 					}
 				})
